@@ -39,7 +39,7 @@ impl FromSpecImpl<Redirection> for InputRedirection {
 // ... its body, verified as a free-standing function under the precondition the callers' contracts establish (no Merge on an input)
 impl InputRedirection {
 //@fn exec::impl(From<Redirection>+for+InputRedirection)::from vis=pub rename=input_redirection_from ret=res
-//@rreplace 1 /panic!\("Redirection::Merge is only allowed for output streams"\);/ => /documented_panic();/
+//@rreplace 1 /panic!\("[^"]*"\);/ => /documented_panic();/
     requires !(r is Merge),     // documented panic
     ensures res == <InputRedirection as vstd::std_specs::convert::FromSpec<Redirection>>::from_spec(r), //[C16]
 //@end
@@ -456,7 +456,7 @@ impl Pipeline {
 //@fn pipeline::Pipeline::from_exec_iter vis=pub
 //@sreplace 1 /I: IntoIterator<Item = Exec>,/ => /I: ExecSource,/
 //@rreplace 1 /iterable\.into_iter\(\)\.collect\(\)/ => /collect_execs(iterable)/
-//@rreplace 1 /panic!\("iterator needs to contain at least two \(2\) elements"\)/ => /documented_panic()/
+//@rreplace 1 /panic!\("[^"]*"\)/ => /documented_panic()/
     requires iterable.items().len() >= 2,     // documented panic
     // the stages are the iterator's elements in the iterator's order, and nothing is redirected yet
     ensures r.cmds@ == iterable.items(), r.stdin is None, r.stdout is None, r.stderr_file.is_none(), r.stdin_data.is_none(), //[C13]
